@@ -1,6 +1,7 @@
 package main
 
 import (
+	"sync"
 	"fmt"
 	"go/ast"
 	"go/token"
@@ -26,6 +27,7 @@ type Program struct {
 	reg      *Registry
 	repo     string
 	srcText  map[string][]string // file -> lines
+	srcMu    sync.Mutex
 	astFile  map[string]*ast.File
 	pkgFiles map[string][]*ast.File
 }
@@ -150,6 +152,8 @@ func (P *Program) srcLine(pos token.Pos) string {
 		return ""
 	}
 	p := P.fset.Position(pos)
+	P.srcMu.Lock()
+	defer P.srcMu.Unlock()
 	lines, ok := P.srcText[p.Filename]
 	if !ok {
 		data, err := os.ReadFile(p.Filename)
